@@ -4,11 +4,11 @@ from . import numgen
 
 MANIFEST = dict(
    technique="Lean 4 proof (exactness of compareNumeric/cmpIntFloat/cmpInts/multipleOfInts over all of Int and all dyadic floats; the float epsilon rule bounded on both sides) + translator (go/ast over pkg/validate, internal/checks, types/integer.go, types/float.go -> Gen/NumDispatch.lean, regenerated on every run: switch tables, guards, constants, method wiring, and the BODIES of cmpInts/multipleOfInts/cmpFloats as terms of a small expression language with Go's int64/uint64 machine semantics; the model is proved equal to the interpreted tables) + differential correspondence of the model against pkg/validate and real numeric schemas",
-   text="Theorems c16_cmp / c16_int_cmp / c16_int_float_cmp / c16_multiple_int prove, for every operand pair of every Go numeric kind, that the transcribed comparison and integer-multiple algorithms equal the mathematical relation (NaN unordered). C16M.c16_float_methods_exact / c16_int_methods_exact state it method by method over the regenerated method tables (Min, Max, Gt, Gte, Lt, Lte, Positive, Negative, NonNegative, NonPositive, Safe) for every input, negative zero, infinities and NaN included (c16_float_specials). The model is tied to /repo (a) by translation: toNum_table, compareNumeric_table, cmpIntFloat_table, cmpOps_table, methods_table and C16A.cmpFloats_table / cmpInts_table / multipleOfInts_table (the regenerated bodies, interpreted, compute the model for every operand pair) are proved over what the translator extracts from the source, so a re-routed arm, an edited range constant, a changed sign test, a dropped conversion or a re-wired schema method changes a proof obligation; (b) by running both on exhaustive 8-bit (thorough: 16-bit) enumerations and a 2^k-boundary grid over all 169 kind pairs (uintptr included), directly and through real schemas, plus *big.Int operands and the BigInt schema (every comparison method, sign shorthands, MultipleOf; values and bounds around 2^53, 2^63, 2^64, 2^1024, 10^30) judged exactly, and named-type / complex operands through the coerce.ToFloat64 path.",
-   note="Trusted: Lean kernel; axioms propext/Classical.choice/Quot.sound only; the Go harness, the translator harness/numgen and the comparer; Go float64 operators and math.Trunc being IEEE-754. Float MultipleOf (documented epsilon rule) is modelled exactly on dyadic floats (Model/NumFloat.lean) and held to C16F: never rejects an exact multiple (c16_float_multiple_complete), and whatever it accepts is within eps (up to one rounding: relative 2^-53, absolute 2^-1075) of a multiple (c16_float_multiple_sound_bound, remainder_is_distance) - not to exact divisibility. Big integers (*big.Int operands, the BigInt schema's Min/Max/Gt/Gte/Lt/Lte, sign shorthands and MultipleOf) are judged against the comparison / divisibility of the integers (spec oracle specXcmp / specXmul; the code compares them with big.Int.Cmp / big.Float.Cmp / big.Int.Rem since 4945548; the model of that path is Drv/C16.lean cmpBigOp, tied by generated cases, not by a translator). Complex and named-type operands follow the code's coerce.ToFloat64 path and have no specification (model observation only).",
+   text="Theorems c16_cmp / c16_int_cmp / c16_int_float_cmp / c16_multiple_int prove, for every operand pair of every Go numeric kind, that the transcribed comparison and integer-multiple algorithms equal the mathematical relation (NaN unordered). C16M.c16_float_methods_exact / c16_int_methods_exact state it method by method over the regenerated method tables (Min, Max, Gt, Gte, Lt, Lte, Positive, Negative, NonNegative, NonPositive, Safe) for every input, negative zero, infinities and NaN included (c16_float_specials); C16M.c16_int_methods_multiple_exact does the same for MultipleOf / Step of the integer schemas (exact divisibility). The method tables record the bound ARGUMENT as an expression (the method's own parameter passed unchanged / a constant / raw text: checks.Gt(value+1) is raw text and fails methods_table). C16B.c16_big_cmp / c16_xcmp_exact / c16_big_multiple prove that the model of the *big.Int path (Model/NumBig.lean: xcmp, xmul - the definitions driver_c16 runs) decides the order / divisibility of the denoted integers of any size, and the exact order of a big integer against a float64. The model is tied to /repo (a) by translation: toNum_table, compareNumeric_table, cmpIntFloat_table, cmpOps_table, methods_table and C16A.cmpFloats_table / cmpInts_table / multipleOfInts_table (the regenerated bodies, interpreted, compute the model for every operand pair) are proved over what the translator extracts from the source, so a re-routed arm, an edited range constant, a changed sign test, a dropped conversion or a re-wired schema method changes a proof obligation; (b) by running both on exhaustive 8-bit (thorough: 16-bit) enumerations and a 2^k-boundary grid over all 169 kind pairs (uintptr included), directly and through real schemas, plus *big.Int operands and the BigInt schema (every comparison method, sign shorthands, MultipleOf; values and bounds around 2^53, 2^63, 2^64, 2^1024, 10^30) judged exactly, and named-type / complex operands through the coerce.ToFloat64 path.",
+   note="Trusted: Lean kernel; axioms propext/Classical.choice/Quot.sound only; the Go harness, the translator harness/numgen and the comparer; Go float64 operators and math.Trunc being IEEE-754. Float MultipleOf (documented epsilon rule) is modelled exactly on dyadic floats (Model/NumFloat.lean) and held to C16F: never rejects an exact multiple (c16_float_multiple_complete), and whatever it accepts is within eps (up to one rounding: relative 2^-53, absolute 2^-1075) of a multiple (c16_float_multiple_sound_bound, remainder_is_distance) - not to exact divisibility. Big integers (*big.Int operands, the BigInt schema's Min/Max/Gt/Gte/Lt/Lte, sign shorthands and MultipleOf) are judged against the comparison / divisibility of the integers (spec oracle specXcmp / specXmul; the code compares them with big.Int.Cmp / big.Float.Cmp / big.Int.Rem since 4945548; the model of that path is Model/NumBig.lean (toBig / cmpBig / bigVsFloat / MultipleOf's big branch), proved exact in C16B and tied to the code by generated cases and the text frame of compareNumeric / MultipleOf, not by a translator of cmpBig's body). Complex and named-type operands follow the code's coerce.ToFloat64 path and have no specification (model observation only).",
    design="DESIGN.md §5 C16; notes/C16.md")
 
-MODULES = ["Gozod.Proofs.C16", "Gozod.Proofs.C16Dispatch", "Gozod.Proofs.C16Float", "Gozod.Proofs.C16Arms", "Gozod.Proofs.C16FloatBound", "Gozod.Proofs.C16Methods"]
+MODULES = ["Gozod.Proofs.C16", "Gozod.Proofs.C16Dispatch", "Gozod.Proofs.C16Float", "Gozod.Proofs.C16Arms", "Gozod.Proofs.C16FloatBound", "Gozod.Proofs.C16Methods", "Gozod.Proofs.C16Big"]
 THEOREMS = [
     "Gozod.C16.c16_cmp", "Gozod.C16.c16_int_cmp", "Gozod.C16.c16_sign", "Gozod.C16.c16_float_cmp",
     "Gozod.C16.c16_nan_left", "Gozod.C16.c16_nan_right", "Gozod.C16.c16_neg_zero", "Gozod.C16.c16_zero_eq",
@@ -29,6 +29,11 @@ THEOREMS = [
     "Gozod.C16F.c16_float_multiple_sound_bound", "Gozod.C16F.remainder_is_distance", "Gozod.C16F.roundMag_lower", "Gozod.C16F.epsOf_pos",
     # method by method over the regenerated method tables: every float input (-0, +-Inf, NaN), every integer input
     "Gozod.C16M.c16_float_methods_exact", "Gozod.C16M.c16_int_methods_exact", "Gozod.C16M.c16_float_specials", "Gozod.C16M.specCmp_int",
+    # round 4c: method-level MultipleOf / Step over the regenerated tables
+    "Gozod.C16M.c16_int_methods_multiple_exact", "Gozod.C16M.c16_float_methods_multiple",
+    # round 4c: big operands (*big.Int, uintptr, the BigInt schema) — Model/NumBig.lean is what driver_c16 runs on xcmp/xmul lines
+    "Gozod.C16B.c16_big_cmp", "Gozod.C16B.c16_xcmp_exact", "Gozod.C16B.c16_xcmp_spec", "Gozod.C16B.c16_big_multiple",
+    "Gozod.C16B.bigRemZero_exact", "Gozod.C16B.xcmp_num", "Gozod.C16B.xmul_num",
 ]
 
 def key(op, impl, M, S):
